@@ -29,6 +29,58 @@ static void writeOps(JW &w)
     w.end_arr();
 }
 
+// ---- delivery through the sequencer (init option "seq"): the commands that follow the init line (up to the next one)
+// become ONE format-1 SMF with two tracks, each routed to its own MIDI port by a port-name meta event (FF 09): MIDI channels
+// 0..15 of the script go to track / port A, 16..31 to track / port B (as channels 0..15 there).  Command i stands alone at
+// tick i + 1 (division 500: 1 tick = 1 ms), so every opn2_tickEvents call (s := the previous return value, like
+// drive_seq) delivers exactly the event of one command, and the writes it causes are recorded for that command.
+static void vlq(std::vector<uint8_t> &o, unsigned v)
+{
+    uint8_t b[5]; int n = 0; b[n++] = v & 0x7F; v >>= 7;
+    while(v) { b[n++] = (uint8_t)((v & 0x7F) | 0x80); v >>= 7; }
+    while(n) o.push_back(b[--n]);
+}
+static bool seqEvent(const JV &c, std::vector<uint8_t> &e, int &port)
+{
+    std::string o = c.gets("o");
+    int ch = (int)c.get("ch", 0); port = ch >= 16 ? 1 : 0; int lc = ch & 15;
+    if(o == "pc") { e.push_back((uint8_t)(0xC0 | lc)); e.push_back((uint8_t)c.get("p")); }
+    else if(o == "cc") { e.push_back((uint8_t)(0xB0 | lc)); e.push_back((uint8_t)c.get("n")); e.push_back((uint8_t)c.get("v")); }
+    else if(o == "on") { e.push_back((uint8_t)(0x90 | lc)); e.push_back((uint8_t)c.get("k")); e.push_back((uint8_t)c.get("v")); }
+    else if(o == "off") { e.push_back((uint8_t)(0x80 | lc)); e.push_back((uint8_t)c.get("k")); e.push_back(0); }
+    else if(o == "bend") { e.push_back((uint8_t)(0xE0 | lc)); e.push_back((uint8_t)(c.get("v") & 127)); e.push_back((uint8_t)((c.get("v") >> 7) & 127)); }
+    else if(o == "bendml") { e.push_back((uint8_t)(0xE0 | lc)); e.push_back((uint8_t)c.get("l")); e.push_back((uint8_t)c.get("m")); }
+    else if(o == "cat") { e.push_back((uint8_t)(0xD0 | lc)); e.push_back((uint8_t)c.get("v")); }
+    else if(o == "nat") { e.push_back((uint8_t)(0xA0 | lc)); e.push_back((uint8_t)c.get("k")); e.push_back((uint8_t)c.get("v")); }
+    else return false;
+    return true;
+}
+static bool buildSeqSong(const std::vector<std::string> &lines, size_t from, std::vector<uint8_t> &smf)
+{
+    std::vector<uint8_t> trk[2]; unsigned last[2] = {0, 0};
+    for(int p = 0; p < 2; ++p) { const uint8_t nm[] = {0x00, 0xFF, 0x09, 0x01, (uint8_t)('A' + p)}; trk[p].insert(trk[p].end(), nm, nm + 5); }
+    unsigned tick = 0;
+    for(size_t li = from; li < lines.size(); ++li)
+    {
+        JV c; if(!jparse(lines[li], c) || c.t != JV::Obj) return false;
+        if(c.gets("o") == "init") break;
+        ++tick;
+        std::vector<uint8_t> e; int port = 0;
+        if(!seqEvent(c, e, port)) return false;
+        vlq(trk[port], tick - last[port]); last[port] = tick;
+        trk[port].insert(trk[port].end(), e.begin(), e.end());
+    }
+    for(int p = 0; p < 2; ++p) { vlq(trk[p], tick + 1 - last[p]); const uint8_t eot[] = {0xFF, 0x2F, 0x00}; trk[p].insert(trk[p].end(), eot, eot + 3); }
+    const uint8_t hd[] = {'M', 'T', 'h', 'd', 0, 0, 0, 6, 0, 1, 0, 2, 0x01, 0xF4};
+    smf.assign(hd, hd + 14);
+    for(int p = 0; p < 2; ++p)
+    {
+        const uint8_t th[] = {'M', 'T', 'r', 'k', (uint8_t)(trk[p].size() >> 24), (uint8_t)(trk[p].size() >> 16), (uint8_t)(trk[p].size() >> 8), (uint8_t)trk[p].size()};
+        smf.insert(smf.end(), th, th + 8); smf.insert(smf.end(), trk[p].begin(), trk[p].end());
+    }
+    return true;
+}
+
 static void hangHandler(int sig)
 {
     const char *m = "HANG: call did not return: ";
@@ -71,6 +123,7 @@ int main(int argc, char **argv)
     if(!g_trace) return 2;
     installCrashHandlers();
     signal(SIGALRM, hangHandler);
+    bool seqMode = false; double seqWait = 0.0;
     for(size_t li = 0; li < lines.size(); ++li)
     {
         JV c;
@@ -94,6 +147,14 @@ int main(int argc, char **argv)
             opn2_setChipType(dev, (int)c.get("fam", 0));
             if(installBanks(dev, c["banks"]) != 0) { fprintf(stderr, "INFRA: bank installation failed\n"); return 2; }
             opn2_setAutoArpeggio(dev, (int)c.get("arp", 0));
+            seqMode = c.get("seq", 0) != 0;
+            if(seqMode)
+            {
+                std::vector<uint8_t> smf;
+                if(!buildSeqSong(lines, li + 1, smf)) { fprintf(stderr, "INFRA: command not available through the sequencer\n"); return 2; }
+                if(opn2_openData(dev, smf.data(), (unsigned long)smf.size()) != 0) { fprintf(stderr, "INFRA: generated SMF rejected: %s\n", opn2_errorInfo(dev)); return 2; }
+                seqWait = opn2_tickEvents(dev, 0.0, 0.0);      // the row at tick 0: song begin, port names
+            }
             tap->clear();
             w.kv("famr", opn2_getChipType(dev));
             w.kv("nch", playerOf(dev)->m_synth->m_numChannels);
@@ -127,7 +188,8 @@ int main(int argc, char **argv)
             continue;
         }
         alarm(5);
-        if(o == "pc") opn2_rt_patchChange(dev, (OPN2_UInt8)c.get("ch"), (OPN2_UInt8)c.get("p"));
+        if(seqMode) seqWait = opn2_tickEvents(dev, seqWait, 0.0);
+        else if(o == "pc") opn2_rt_patchChange(dev, (OPN2_UInt8)c.get("ch"), (OPN2_UInt8)c.get("p"));
         else if(o == "cc") opn2_rt_controllerChange(dev, (OPN2_UInt8)c.get("ch"), (OPN2_UInt8)c.get("n"), (OPN2_UInt8)c.get("v"));
         else if(o == "on") r = opn2_rt_noteOn(dev, (OPN2_UInt8)c.get("ch"), (OPN2_UInt8)c.get("k"), (OPN2_UInt8)c.get("v"));
         else if(o == "off") opn2_rt_noteOff(dev, (OPN2_UInt8)c.get("ch"), (OPN2_UInt8)c.get("k"));
